@@ -3,7 +3,11 @@ dir with a twisted Clock and a simulated disk, history generation, execution on 
 canonical outputs (the line protocol of lean/Tahoe/Storage/ImmDrv.lean), and the reference monitor.
 
 Operations of a history (JSON-serialisable lists):
-  ["A", si, [shnums], size, secret_id, free]   allocate_buckets
+  ["A", si, [shnums], size, secret_id, free]   StorageServer.allocate_buckets (direct call)
+  ["A", si, [shnums], size, secret_id, free, conn]   FoolscapStorageServer.remote_allocate_buckets with the
+                                               canary of connection `conn`; W/C/X on the returned handles go
+                                               through FoolscapBucketWriter.remote_write/close/abort
+  ["K", conn]                                  connection `conn` is lost: its canary fires the registered watchers
   ["W", wid, off, hexdata]                     BucketWriter.write through handle wid
   ["C", wid] close   ["X", wid] abort   ["Y", wid] disconnected
   ["T", dt] clock.advance(dt)
@@ -50,6 +54,41 @@ def simulated_disk(disk):
         yield
     finally:
         os.statvfs = real
+
+
+class Canary:
+    """Stand-in for the RemoteReference of an uploader's canary, following foolscap.broker.Broker:
+    notifyOnDisconnect returns the marker (callback, args, kwargs) (runs the callback at once when the
+    connection is already lost), dontNotifyOnDisconnect removes a registered marker and ignores an
+    unknown one (and does nothing after the loss), losing the connection runs the watchers still
+    registered (foolscap: `eventually`, here: immediately, in registration order)."""
+
+    def __init__(self, conn):
+        self.conn = conn
+        self.disconnected = False
+        self.watchers = []
+
+    def notifyOnDisconnect(self, callback, *args, **kwargs):
+        marker = (callback, args, kwargs)
+        if self.disconnected:
+            callback(*args, **kwargs)
+        else:
+            self.watchers.append(marker)
+        return marker
+
+    def dontNotifyOnDisconnect(self, marker):
+        if self.disconnected:
+            return
+        if marker in self.watchers:
+            self.watchers.remove(marker)
+
+    def lose_connection(self):
+        if self.disconnected:
+            return
+        self.disconnected = True
+        watchers, self.watchers = self.watchers, []
+        for (cb, args, kwargs) in watchers:
+            cb(*args, **kwargs)
 
 
 def make_server(storedir, clock, reserved=0, readonly=False):
@@ -139,6 +178,10 @@ class Runner:
         self.readonly = readonly
         self.reserved_space = reserved
         self.ss = make_server(self.dir, self.clock, reserved, readonly)
+        from allmydata.storage.server import FoolscapStorageServer
+        self.fss = FoolscapStorageServer(self.ss)   # the front end a real uploader talks to
+        self.canaries = {}       # conn -> Canary
+        self.fhandles = []       # wid -> FoolscapBucketWriter or None (direct call)
         self.handles = []        # wid -> BucketWriter
         self.hkey = []           # wid -> (si, sh, size)
         self.si_names = {}
@@ -181,7 +224,8 @@ class Runner:
         kind = o[0]
         self.ctx.count("op:" + kind)
         if kind == "A":
-            _, si, shs, size, secret_id, free = o
+            si, shs, size, secret_id, free = o[1:6]
+            conn = o[6] if len(o) > 6 else None
             self.disk["free"] = free
             sib = si_bytes(si)
             from allmydata.storage.common import storage_index_to_dir
@@ -192,9 +236,16 @@ class Runner:
             rs, cs = secrets(secret_id)
             line = "A:%d:%s:%d:%s:%d:%s" % (si, show_list(str(x) for x in shset), size, hx(rec), free,
                                             show_list(str(x) for x in order))
+            if conn is not None:
+                line += ":%d" % conn
+                canary = self.canaries.setdefault(conn, Canary(conn))
+                self.ctx.count("alloc:via-foolscap")
             before_alloc = ss.allocated_size()
             try:
-                already, writers = ss.allocate_buckets(sib, rs, cs, shset, size)
+                if conn is None:
+                    already, writers = ss.allocate_buckets(sib, rs, cs, shset, size)
+                else:
+                    already, writers = self.fss.remote_allocate_buckets(sib, rs, cs, shset, size, canary)
             except NoSpace:
                 self.ctx.count("alloc:NoSpace")
                 return line, "NoSpace"
@@ -203,10 +254,14 @@ class Runner:
             ws = []
             for sh, bw in writers.items():
                 wid = len(self.handles)
+                fbw = None
+                if conn is not None:
+                    fbw, bw = bw, bw._bucket_writer
+                self.fhandles.append(fbw)
                 self.handles.append(bw)
                 self.hkey.append((si, sh, size))
                 ws.append("%d.%d" % (sh, wid))
-                ref.inprog[wid] = {"key": (si, sh), "size": size, "data": bytearray(size), "mask": bytearray(size),
+                ref.inprog[wid] = {"key": (si, sh), "size": size, "data": bytearray(size), "mask": bytearray(size), "conn": conn,
                                    "last_ok": self.clock.seconds(), "last_try": self.clock.seconds()}
                 ref.reserved[wid] = size
                 if (si, sh) in ref.complete:
@@ -216,6 +271,11 @@ class Runner:
             self.alloc_info = {"size": size, "accepted": len(writers), "before": before_alloc, "free": free,
                                "requested": len(shset)}
             return line, "a=%s|w=%s" % (show_list(str(x) for x in sorted(already)), show_list(ws))
+        if kind in ("W", "C", "X", "Y") and o[1] >= len(self.handles):
+            # a fixed (corpus / replay) history names a handle this implementation never handed out
+            self.ctx.count("op-on-missing-handle")
+            tok = {"W": "W:%d:%d:%s" % (o[1], o[2], o[3]) if kind == "W" else "", "C": "C:%d" % o[1]}.get(kind, "X:%d" % o[1])
+            return tok, "nohandle"
         if kind == "W":
             _, wid, off, dhex = o
             data = b"" if dhex == "-" else bytes.fromhex(dhex)
@@ -224,7 +284,11 @@ class Runner:
             r = ref.inprog.get(wid)
             now = self.clock.seconds()
             try:
-                fin = bw.write(off, data)
+                if self.fhandles[wid] is not None:
+                    self.fhandles[wid].remote_write(off, data)     # returns nothing over the wire
+                    fin = bw._is_finished()
+                else:
+                    fin = bw.write(off, data)
                 out = "ok.T" if fin else "ok.F"
             except ConflictingWriteError:
                 out = "conflict"
@@ -260,7 +324,10 @@ class Runner:
             wid = o[1]
             bw = self.handles[wid]
             try:
-                bw.close()
+                if self.fhandles[wid] is not None:
+                    self.fhandles[wid].remote_close()
+                else:
+                    bw.close()
                 out = "ok"
             except AssertionError:
                 out = "closed"
@@ -277,7 +344,10 @@ class Runner:
             wid = o[1]
             bw = self.handles[wid]
             if kind == "X":
-                bw.abort()
+                if self.fhandles[wid] is not None:
+                    self.fhandles[wid].remote_abort()
+                else:
+                    bw.abort()
             else:
                 bw.disconnected()
             r = ref.inprog.get(wid)
@@ -286,6 +356,26 @@ class Runner:
                     self.flag("aborted upload left its incoming file", "c22-abort-leaves-file")
                 self._ref_drop(wid)
             return "X:%d" % wid, "ok"
+        if kind == "K":
+            conn = o[1]
+            canary = self.canaries.setdefault(conn, Canary(conn))
+            canary.lose_connection()
+            # statement: a disconnected upload leaves no share behind and releases its reservation
+            # (the released reservation and the visibility are checked by check_state right after)
+            for wid, r in list(ref.inprog.items()):
+                if r.get("conn") == conn:
+                    bw = self.handles[wid]
+                    left = os.path.exists(bw.incominghome)
+                    if left or not bw.closed:
+                        n_done = sum(1 for w in range(len(self.handles))
+                                     if self.fhandles[w] is not None and self.handles[w].closed and w not in ref.inprog)
+                        self.flag("connection %d lost but the upload of share %s is still in progress (incoming file %s): "
+                                  "its share number cannot be allocated again and its reservation is kept" % (
+                                      conn, r["key"], "present" if left else "absent"),
+                                  "c22-disconnect-leaves-upload")
+                    self.ctx.count("disconnect:aborted-upload")
+                    self._ref_drop(wid)
+            return "K:%d" % conn, "ok"
         if kind == "T":
             dt = o[1]
             self.clock.advance(dt)
@@ -353,21 +443,40 @@ class Runner:
         return (head + " " + " ".join(lines)).strip(), " ".join(outs) or "-"
 
 
-def gen_history(rng, n_ops, free_fn=None, sizes=(0, 1, 3, 5, 8, 10, 16, 24, 40), n_si=3, shnums=(0, 1, 2, 3, 8, 9, 17)):
+def gen_history(rng, n_ops, free_fn=None, sizes=(0, 1, 3, 5, 8, 10, 16, 24, 40), n_si=3, shnums=(0, 1, 2, 3, 8, 9, 17),
+                foolscap=0.0):
     """Structured history: allocate/write (overlapping, out-of-order, conflicting)/close/abort/
     disconnect/timeout/read/list.  Handles are tracked only approximately (the real result decides);
     stale handles are used on purpose."""
     ops = []
     est = []       # allocations requested so far (the Resolver picks real handles at run time)
+    # a history is either driven through the Foolscap front end (uploaders = connections with a
+    # canary; multi-share requests; connections get lost) with a few direct calls mixed in, or by
+    # direct StorageServer calls only
+    via_foolscap = rng.random() < foolscap
+    live_conns, next_conn = [], 1
     for _ in range(n_ops):
         r = rng.random()
+        if via_foolscap and live_conns and rng.random() < 0.07:
+            c = rng.choice(live_conns)
+            live_conns.remove(c)
+            ops.append(["K", c])
+            continue
         if r < 0.16 or not est:
             si = rng.randrange(n_si)
-            k = rng.choice([1, 1, 2, 3, 4])
+            k = rng.choice([2, 2, 3, 3, 4, 1]) if via_foolscap else rng.choice([1, 1, 2, 3, 4])
             shs = sorted(set(rng.choice(shnums) for _ in range(k)))
             size = rng.choice(sizes)
             free = free_fn(rng) if free_fn else 10 ** 9
-            ops.append(["A", si, shs, size, rng.randrange(3), free])
+            op = ["A", si, shs, size, rng.randrange(3), free]
+            if via_foolscap and rng.random() < 0.9:
+                if live_conns and rng.random() < 0.6:
+                    c = rng.choice(live_conns)
+                else:
+                    c, next_conn = next_conn, next_conn + 1
+                    live_conns.append(c)
+                op.append(c)
+            ops.append(op)
             est.append(("alloc", si, shs, size))
         elif r < 0.56:
             ops.append(["W?", rng.random(), rng.random(), rng.random(), rng.random()])
